@@ -131,6 +131,11 @@ fn kind_of(s: &str) -> io::ErrorKind {
         "AddrNotAvailable" => AddrNotAvailable,
         "HostUnreachable" => HostUnreachable,
         "NetworkUnreachable" => NetworkUnreachable,
+        "InvalidInput" => InvalidInput,
+        "Unsupported" => Unsupported,
+        "OutOfMemory" => OutOfMemory,
+        "AddrInUse" => AddrInUse,
+        "ConnectionRefusedLate" => ConnectionRefused,
         _ => Other,
     }
 }
